@@ -93,7 +93,8 @@ def generate(seed, tier, index):
     entry = C.make_script_entry(rs, ru, rk, kind, None, {"steps": (150, 300) if reservoir else (3, 40), "p_ongrid": 0.05,
                                                          "p_zero_tmax": 0.0 if reservoir else 0.04, "p_explicit_tmax": 1.0 if reservoir else 0.4,
                                                          "courant": (0.05, 0.3),
-                                                         "isp": rk.choice(["auto", "auto", "redist", "Poisson"]) if kind != "euler" else "auto"},
+                                                         "isp": rk.choice(["auto", "auto", "redist", "Poisson", "none"]) if kind != "euler" else "auto",
+                                                         "tauleap_fractional_none": 1.0},
                                 rich=rs.chance(0.5), spec=spec)
     spec = entry["phys"]["spec"]
     sp = entry["phys"]["sp"]
